@@ -533,6 +533,28 @@ theorem bootstrap_texts_eq_scan (cfg : Cfg) (hi : cfg.ignoreBlank = true) (ls : 
       exact (hs.eq_of_length heq).symm
 
 
+/-- without any start line the filter is just "drop the blank lines" -/
+theorem keptScan_plain (cfg : Cfg) (ls : List Str)
+    (hb : ∀ x ∈ ls, isBannerStart x = false)
+    (hm : cfg.ios = true → ∀ x ∈ ls, isMacroStart x = false) :
+    keptScan cfg 0 ls = ls.filter nonBlank := by
+  induction ls with
+  | nil => rfl
+  | cons x rest ih =>
+    have hp : prot cfg x rest = 0 := by
+      unfold prot protB protM
+      rw [hb x (List.mem_cons_self ..)]
+      cases hi : cfg.ios with
+      | false => simp
+      | true => simp [hm hi x (List.mem_cons_self ..)]
+    have ih' := ih (fun y hy => hb y (List.mem_cons_of_mem _ hy))
+      (fun hi y hy => hm hi y (List.mem_cons_of_mem _ hy))
+    by_cases hn : nonBlank x = true
+    · rw [keptScan_cons_pos cfg 0 x rest (by simp [hn]), hp]
+      simp [hn, ih']
+    · rw [keptScan_cons_neg cfg 0 x rest (by simp [hn, hp]), hp]
+      simp [hn, ih']
+
 /-! ## the declarative reading -/
 
 theorem inBody_iff (cfg : Cfg) (ls : List Str) (j : Nat) (hj : j < ls.length) :
